@@ -17,8 +17,10 @@ import Model.Util
   * `Mutations.mutation`  = per agent: the drawn kind (`kindStep`), then `finish`
     (re-create every shared network from its evaluation network's `init_dict` + `load_state_dict`,
     run the mutation hook).
-  * architecture          = clone every evaluation network, apply the policy's *applied* method to
-                            the others, run the hook, rebuild every optimizer (`reinit_opt`).
+  * architecture          = clone every evaluation network, apply the policy's *applied* method with
+                            the arguments it returned (`applied[j]` = `method~change` for module /
+                            sub-agent `j`) to module `j` of the others, run the hook, rebuild
+                            every optimizer (`reinit_opt`).
   * parameters            = noise written in place into the policy's weights, rebuild every optimizer.
   * activation            = nothing for the policy-gradient / actor-critic algorithms (`actExempt`),
                             otherwise every evaluation network is rebuilt, then every optimizer.
@@ -39,6 +41,11 @@ open Util
 /-- opaque identity of an architecture / of a block of weights: (stamp, network, module) -/
 abbrev Tag := Nat × Nat × Nat
 
+/-- an applied architecture change: the method name (`last_mutation_attr`) and the resulting change
+    of the architecture (what the method's sampled arguments did: which layer, how many nodes /
+    channels, the latent dimension …) -/
+abbrev Change := String × String
+
 /-- which tensors of a module are detached copies (not parameters any more) -/
 inductive Det
   | none | enc | all
@@ -51,7 +58,8 @@ structure Mod where
   enc     : List Nat
   head    : List Nat
   det     : Det
-  lastMut : Option String
+  /-- the architecture change last applied to this module -/
+  lastMut : Option Change
 deriving DecidableEq, Repr
 
 /-- `list(module.parameters())` -/
@@ -192,8 +200,14 @@ def finish (fresh : Fresh) (stamp : Nat) (a : Agent) : Agent :=
     | .eval _ => n
   { a with nets := applyHook a.hook nets1 }
 
+/-- the label an architecture mutation reports: the method applied to the policy's first module -/
+def archLabel (applied : List (Option Change)) : String :=
+  match applied.headD none with
+  | some c => c.1
+  | none => "None"
+
 /-- clone of an evaluation module followed by the applied architecture method (`none`: untouched) -/
-def cloneMutate (stamp k : Nat) (applied : List (Option String)) (fr : List (List Nat × List Nat))
+def cloneMutate (stamp k : Nat) (applied : List (Option Change)) (fr : List (List Nat × List Nat))
     (j : Nat) (m : Mod) : Mod :=
   let ap := applied.getD j none
   let c := copyMod (stamp, k, j) (fr.getD j ([], [])) m
@@ -203,10 +217,10 @@ def cloneMutate (stamp k : Nat) (applied : List (Option String)) (fr : List (Lis
 def mapEval (f : Nat → NetAttr → NetAttr) (nets : List NetAttr) : List NetAttr :=
   nets.mapIdx fun k n => if n.role.isEval then f k n else n
 
-def archStep (applied : List (Option String)) (fresh : Fresh) (stamp : Nat) (a : Agent) : Agent :=
+def archStep (applied : List (Option Change)) (fresh : Fresh) (stamp : Nat) (a : Agent) : Agent :=
   let nets1 := mapEval (fun k n => { n with mods := n.mods.mapIdx (cloneMutate stamp k applied (fresh.getD k [])) }) a.nets
   let nets2 := applyHook a.hook nets1
-  rebuildAll { a with nets := nets2, label := (applied.headD none).getD "None" }
+  rebuildAll { a with nets := nets2, label := archLabel applied }
 
 def paramStep (stamp : Nat) (a : Agent) : Agent :=
   let nets1 := a.nets.mapIdx fun k n =>
@@ -237,7 +251,7 @@ def hpStep (firstOnly : Bool) (name : String) (lr : Option (Nat × Rat)) (a : Ag
 
 inductive Kind
   | none
-  | arch (applied : List (Option String))
+  | arch (applied : List (Option Change))
   | param
   | act
   | hp (name : String) (lr : Option (Nat × Rat))
@@ -264,7 +278,7 @@ def mutate1 (firstOnly : Bool) (c : Choice) (a : Agent) : Agent :=
 /-- the label `Mutations.mutation` is expected to leave in `agent.mut` for a drawn kind -/
 def labelOf (a : Agent) : Kind → String
   | .none => "None"
-  | .arch applied => (applied.headD none).getD "None"
+  | .arch applied => archLabel applied
   | .param => "param"
   | .act => if a.actExempt then "None" else "act"
   | .hp name _ => name
@@ -440,8 +454,18 @@ def parseHook? : List String → Option Hook
     | none => none
   | _ => none
 
-def parseApplied (s : String) : List (Option String) :=
-  (s.splitOn ",").map fun t => if t = "_" then none else some t
+/-- `method~change` (or just `method`), `_` = nothing applied -/
+def parseApplied (s : String) : List (Option Change) :=
+  (s.splitOn ",").map fun t =>
+    if t = "_" then none else
+    match t.splitOn "~" with
+    | [m] => some (m, "")
+    | m :: rest => some (m, "~".intercalate rest)
+    | [] => none
+
+def showChange : Option Change → String
+  | none => "_"
+  | some (m, c) => if c = "" then m else m ++ "~" ++ c
 
 /-- `k=e,h+e,h` tokens → size table indexed by network -/
 def parseSizeTable? (n : Nat) (ws : List String) : Option (List (List (Nat × Nat))) :=
@@ -507,7 +531,7 @@ def showAgent (a : Agent) : String :=
 
 def showLma (a : Agent) : String :=
   " ".intercalate ((a.nets.zipIdx.filter (fun p => p.1.role.isEval)).map fun (n, k) =>
-    s!"{k}:" ++ ",".intercalate (n.mods.map fun m => m.lastMut.getD "_"))
+    s!"{k}:" ++ ",".intercalate (n.mods.map fun m => showChange m.lastMut))
 
 /-- registered networks all of whose parameters a learn step writes -/
 def showMoved (a : Agent) : String :=
